@@ -601,6 +601,13 @@ var decJobs = []decJob{
 	{"pkg/parser/comment.go", "Parser", "parseNotationInComments", "parseNotationsEnd", "", false, "%afterloop"},
 	{"pkg/parser/comment.go", "Parser", "lookupType", "lookupType", "", false, ""},
 	{"pkg/parser/method.go", "Parser", "parseMethod", "parseMethod", "", false, ""},
+	{"pkg/option/pattern_matcher.go", "", "compileRegexp", "compileRegexp", "", false, ""},
+	{"pkg/option/pattern_matcher.go", "", "NewPatternMatcher", "newPatternMatcher", "", false, ""},
+	{"pkg/option/option.go", "Options", "CompareFieldName", "compareFieldName", "", false, ""},
+	{"pkg/builder/method.go", "FunctionBuilder", "createVar", "createVar", "", false, ""},
+	{"pkg/parser/comment.go", "Parser", "resolveConverters", "resolveConvertersHead", "for _, method", false, ""},
+	{"pkg/parser/comment.go", "Parser", "resolveConverters", "resolveConvertersStep", "", false, "%loop"},
+	{"pkg/parser/comment.go", "Parser", "resolveConverters", "resolveConvertersEnd", "", false, "%afterloop"},
 }
 
 func genDecisions(repo string) string {
